@@ -134,6 +134,35 @@ class Hooks:
                 out.append(("nonzero-idle", "size %r after leaving every context" % k.get_current_buffer_size()))
             if k.get_buffer_capacity() != run.scratch["cap"]:
                 out.append(("capacity", "capacity %r after leaving every context, expected %r" % (k.get_buffer_capacity(), run.scratch["cap"])))
+            # aftermath: nothing of this history may linger in the buffer - an unbuffered write followed by an
+            # ordinary buffered session (read, write, exit) must behave like on a fresh process
+            k.set_buffer_capacity(env.default_capacity(run.cfg.clsname))
+            kind_ = ref.rootkind
+            for o, obj in enumerate(world.objects):
+                if kind_ == "dict":
+                    obj["aft"] = o
+                else:
+                    obj.append("aft")
+            want = [model.to_plain(world.resources[ref.obj_res[o]].read()) for o in range(len(world.objects))]
+            try:
+                with k.buffer_backend():
+                    for o, obj in enumerate(world.objects):
+                        got = model.to_plain(obj())
+                        if not model.exact_eq(got, want[o]):
+                            out.append(("stale-later-session", "a later buffered session shows %r for object %d, the file holds %r" % (got, o, want[o])))
+                        if kind_ == "dict":
+                            obj["aft2"] = o
+                        else:
+                            obj.append("aft2")
+            except Exception as e:  # noqa: BLE001
+                out.append(("later-session-error", "a later ordinary buffered session raised %s: %s" % (type(e).__name__, e)))
+            for o, obj in enumerate(world.objects):
+                disk = model.to_plain(world.resources[ref.obj_res[o]].read())
+                ok = ("aft2" in disk) if isinstance(disk, (dict, list)) else False
+                if not ok:
+                    out.append(("later-session-lost", "the write of a later buffered session did not reach file %d (%r)" % (o, disk)))
+            if k.get_current_buffer_size() != 0:
+                out.append(("nonzero-idle", "size %r after the later session" % k.get_current_buffer_size()))
         except Exception as e:  # noqa: BLE001
             out.append(("probe-error", "%s: %s" % (type(e).__name__, e)))
         return out
